@@ -68,6 +68,54 @@ def oracle_c03(cid, impl, m):
     return True
 
 
+def oracle_c11(cid, impl, m):
+    """An OPL document accepted by the real parser/type checker, a store that conforms
+    to the declared types and a query on a declared relation: no schema error."""
+    if "res" not in m or impl.get("opl") != "1":
+        return None
+    if m.get("conf") != "1" or m.get("qdecl") != "1":
+        return None
+    if impl.get("res", "").endswith("/schema"):
+        tag = "ttu-subjectset-type" if (m.get("wf") == "0" and impl["res"] == m["res"]) else "c11-schema-error"
+        return (tag, "accepted OPL + conforming store + declared query, yet the check failed with a schema error")
+    if m.get("wf") == "1" and m["res"].endswith("/schema"):
+        return ("c11-model-schema", "model reports a schema error on a well-formed instance")
+    return True
+
+
+def oracle_c15_life(cid, impl, m):
+    """Every check returns, with the fault-free answer or an error of the injected kind,
+    and releases its goroutines."""
+    if "returned" not in impl:
+        return None
+    if impl["returned"] != "1":
+        return ("c15-hang", f"check did not return within 10 s ({impl.get('kind')})")
+    if impl.get("leak") != "0":
+        return ("c15-leak", f"{impl.get('leak')} goroutine(s) left after the check returned and its context was released ({impl.get('kind')})")
+    lres = impl.get("lres", "")
+    kind = impl.get("kind")
+    ok = {m.get("res0")}
+    if kind in ("cancel", "precancel"):
+        ok |= {"unknown/ctx", "notMember/ctx"}
+    if kind in ("fault", "corpus"):
+        ok |= {m.get("res"), "unknown/storage", "notMember/storage"}
+    if lres not in ok:
+        return ("c15-result", f"{kind}: answered {lres}, expected one of {sorted(x for x in ok if x)}")
+    if lres.startswith("isMember/") and not lres.endswith("/none"):
+        return ("c15-allowed-with-error", f"{lres}")
+    return True
+
+
+def oracle_c15_cg(cid, impl, m):
+    if "res" not in m or "expected" not in m:
+        return None
+    if impl.get("leak") != "0":
+        return ("c15-cg-leak", f"checkgroup left {impl.get('leak')} goroutine(s)")
+    if impl.get("res") == "hang":
+        return ("c15-cg-hang", "checkgroup result never arrived")
+    return True
+
+
 ENGINE_RULE = ("configs from an OPL-shaped grammar (1-4 namespaces, related relations with plain and SubjectSet types, "
                "permissions over includes/permits/traverse/!/&&/||, rendered to OPL and loaded through the real parser, "
                "or legacy namespaces without relations), 0-54 tuples biased to declared relations, chains, cycles, duplicates; "
@@ -75,6 +123,25 @@ ENGINE_RULE = ("configs from an OPL-shaped grammar (1-4 namespaces, related rela
                "distinct = distinct protocol lines")
 
 PROPS = {
+    "C11": {
+        "lean_module": "Keto.Props.C11",
+        "theorems": ["Keto.C11_forward_partial", "Keto.C11_build_no_schema", "Keto.C11_forward_partial_storage_only",
+                     "Keto.C11_wellFormedB_sound", "Keto.C11_ttu_subjectset_counterexample"],
+        "streams": [{"name": "engine-c11", "n": {"quick": 200, "thorough": 2500}, "oracle": oracle_c11, "thorough_seeds": 3}],
+        "rule": ENGINE_RULE + "; stores conform to the declared types; judged = configuration accepted by the real OPL type checker, conforming store, query on a declared relation",
+        "partial": "forward direction proved under WellFormed (every name the engine can look up resolves); the OPL type checker does not establish WellFormed for traverse over SubjectSet-typed relations (known finding F-ttu-type)",
+        "assumptions": [],
+    },
+    "C15": {
+        "lean_module": "Keto.Props.C15",
+        "theorems": ["Keto.C15_check_terminates", "Keto.C15_build_terminates", "Keto.C15_fuel_irrelevant"],
+        "streams": [{"name": "cg", "n": {"quick": 400, "thorough": 4000}, "oracle": oracle_c15_cg, "thorough_seeds": 3},
+                    {"name": "engine-life", "n": {"quick": 60, "thorough": 600}, "oracle": oracle_c15_life, "thorough_seeds": 3,
+                     "ignore": ["res", "calls"]}],
+        "rule": "cg: scripted check functions (NotMember/Unknown/IsMember/error, random delays, a check that cancels the context) through the real concurrent checkgroup; engine-life: real engine with the real concurrent checkgroup, request cancelled before start / at the k-th storage call, k-th storage call failing; non-trivial = at least 2 checks / 2 storage calls",
+        "partial": "'returns promptly' is observed with a timeout, goroutine release by counting goroutines; storage-call bound is the model's structural bound",
+        "assumptions": [],
+    },
     "C03": {
         "lean_module": "Keto.Props.C03",
         "theorems": ["Keto.C03_no_allow_pos", "Keto.C03_single_error_never_allowed", "Keto.C03_invert_keeps_error",
